@@ -67,6 +67,8 @@ def parse_docstring_annotation(
     with suppress(
         AttributeError,  # Docstring has no parent that can be used to resolve names.
         SyntaxError,  # Annotation contains syntax errors.
+        RecursionError,  # Annotation is nested too deeply for the compiler.
+        MemoryError,  # Annotation is too complex for the parser ("Parser stack overflowed").
     ):
         code = compile(annotation, mode="eval", filename="", flags=PyCF_ONLY_AST, optimize=2)
         if code.body:  # type: ignore[attr-defined]
